@@ -19,6 +19,8 @@ LEVEL = 'exploration'
 BUDGET = {'quick': 45, 'thorough': 420}
 # deterministic sub-checks repeated in a `python -O` child (core.optimized_child)
 OPT_SUBS = ('numeric/table', 'string/table', 'in/table', 'all-in/table', 'range-in/table')
+# documented call interface the generated calls rely on (vcheck/callstyle.py)
+INTERFACE = [('oslo_utils.specs_matcher', None)]
 RULE = ('specs are built from (operator, operands, blank layout): the 7 '
         'numeric operators over decimal operands (<= 12 significant digits, '
         'negatives, same value in another spelling, one unit in the last '
@@ -609,7 +611,8 @@ def tasks(tier, seed):
     q = tier == 'quick'
     # the (short) exhaustive tables first, then 16 long searches so that
     # every family starts at once and a tight budget cuts them all alike
-    out = [Task('numeric/table', numeric_table, ops=(op,)) for op in NUM_OPS]
+    out = [Task('preempt', preempt)]
+    out += [Task('numeric/table', numeric_table, ops=(op,)) for op in NUM_OPS]
     out += [Task('string/table', string_table, ops=(op,)) for op in STR_OPS]
     out += [Task('in/table', in_or_plain_table),
             Task('all-in/table', all_in_table),
@@ -629,6 +632,59 @@ def tasks(tier, seed):
     return out
 
 
+def preempt(col):
+    """Schedules (core.preempt_calls): matches against each other under
+    every single preemption inside specs_matcher; and the object handed out
+    by make_grammar() belongs to the caller - customising it in place must
+    not change what match() does afterwards."""
+    from oslo_utils import specs_matcher as sm
+    sub = 'preempt'
+    T, F = ('value', True), ('value', False)
+    calls = [
+        ('match(12, <or> 11 <or> 12)',
+         lambda: sm.match('12', '<or> 11 <or> 12'), T),
+        ('match(3, <range-in> [ 1 5 ])',
+         lambda: sm.match('3', '<range-in> [ 1 5 ]'), T),
+        ('match(6, <range-in> [ 1 5 ])',
+         lambda: sm.match('6', '<range-in> [ 1 5 ]'), F),
+        ('match(abc, s== abc)', lambda: sm.match('abc', 's== abc'), T),
+        ('match(5, >= 6)', lambda: sm.match('5', '>= 6'), F),
+        ("match(['a', 'b'], <all-in> a b)",
+         lambda: sm.match("['a', 'b']", '<all-in> a b'), T),
+        ('match(abc, <in> bc)', lambda: sm.match('abc', '<in> bc'), T),
+        ('match(x, x)', lambda: sm.match('x', 'x'), T),
+        ('match(2, = 1)', lambda: sm.match('2', '= 1'), T),
+        ('match(1, != 1)', lambda: sm.match('1', '!= 1'), F),
+    ]
+    core.preempt_calls(col, sub, ['oslo_utils.specs_matcher'], calls)
+    # aliasing: scribble over a grammar obtained from make_grammar()
+    import importlib
+    importlib.reload(sm)
+    for round_ in range(2):
+        g = sm.make_grammar()
+        try:
+            g.setParseAction(lambda toks: ['scribbled'])
+            g.leaveWhitespace()
+        except Exception:
+            pass
+        for label, thunk, want in calls:
+            try:
+                got = ('value', thunk())
+            except Exception as e:
+                got = ('raise', type(e).__name__)
+            col.case(sub, ('alias', round_, label), True, 'grammar-alias',
+                     {'call': label})
+            if got != want:
+                raise Violation(sub, 'after customising the object returned '
+                                'by make_grammar() in place: %s: %r, '
+                                'expected %r' % (label, got, want),
+                                {'call': label, 'preempt_calls': True})
+    importlib.reload(sm)
+    col.exhaustive.setdefault(sub, False)
+
+
 def replay(rec):
     from oslo_utils import specs_matcher as sm
+    if rec['case'].get('preempt_calls'):
+        return preempt(core.Collector())
     check(sm, rec['case'], rec.get('sub', 'replay'))
